@@ -376,5 +376,5 @@ def replay(ctx, case):
 
 
 FAMILIES = [
-    Family('histories', lambda ctx, case: replay(ctx, case), stateful=run_histories, n=(160, 3200)),
+    Family('histories', lambda ctx, case: replay(ctx, case), stateful=run_histories, n=(200, 4800)),
 ]
